@@ -93,6 +93,9 @@ type world struct {
 	live client.Client
 	// vis says how the foreign target appears to the site's reads during the first run.
 	vis visibility
+	// normalize, if set, is applied to guarded objects before they are compared. It is used
+	// only for the one write the property puts out of scope (see releaseNormalizer).
+	normalize func(o verifsim.Obj) verifsim.Obj
 	// between is what the environment does between two runs (may be nil).
 	between func()
 	// protected are keys that must stay byte-identical besides every
@@ -187,6 +190,8 @@ type expectation struct {
 	noStaleReads string
 	// noReads: the site is driven without reads of its own (nothing to hide from).
 	noReads bool
+	// afterOwn, if set, is an extra clause evaluated for the owner's own placement.
+	afterOwn func(w *world, fail func(string, ...any))
 	// check, if set, is an extra site-specific clause evaluated for the foreign placement.
 	extra func(w *world, fail func(string, ...any))
 }
@@ -272,6 +277,13 @@ func (w *world) runSite(n int) []error {
 	return errs
 }
 
+func (w *world) digest(o verifsim.Obj) string {
+	if o != nil && w.normalize != nil {
+		o = w.normalize(o)
+	}
+	return verifsim.ObjDigest(o)
+}
+
 // guarded returns the digests of every object the site must leave alone.
 func (w *world) guarded() map[verifsim.Key]string {
 	out := map[verifsim.Key]string{}
@@ -280,12 +292,12 @@ func (w *world) guarded() map[verifsim.Key]string {
 			continue
 		}
 		if c := verifsim.ControllerUID(o); c != "" && c != w.ownerUID {
-			out[k] = verifsim.ObjDigest(o)
+			out[k] = w.digest(o)
 		}
 	}
 	for _, k := range w.protected {
 		if o := w.sim.Get(k); o != nil {
-			out[k] = verifsim.ObjDigest(o)
+			out[k] = w.digest(o)
 		}
 	}
 	return out
@@ -341,7 +353,7 @@ func judge(w *world, e expectation, runs int, fail func(string, ...any)) (wrote 
 	}
 	sort.Slice(keys, func(i, j int) bool { return keys[i].String() < keys[j].String() })
 	for _, k := range keys {
-		if got := verifsim.ObjDigest(state[k]); got != before[k] {
+		if got := w.digest(state[k]); got != before[k] {
 			fail("%s: object %s, controlled by another owner, was not left exactly as it was\n  before: %s\n  after:  %s\n  writes:%s", ctx, k, before[k], got, describeWrites(w.siteWrites(k, from)))
 		}
 	}
@@ -349,7 +361,7 @@ func judge(w *world, e expectation, runs int, fail func(string, ...any)) (wrote 
 		if _, ok := before[wr.Key]; !ok || wr.DryRun || wr.Actor == envActor {
 			continue
 		}
-		if wr.Changed || wr.Removed {
+		if (wr.Changed || wr.Removed) && (wr.Removed || w.normalize == nil || w.digest(wr.Before) != w.digest(wr.After)) {
 			fail("%s: the write log holds an accepted %s of %s (controlled by another owner) that changed its stored bytes (write #%d by %s)", ctx, wr.Verb, wr.Key, wr.Seq, wr.Actor)
 		}
 		if wr.Verb == "delete" && wr.Err == "" {
@@ -402,6 +414,9 @@ func judge(w *world, e expectation, runs int, fail func(string, ...any)) (wrote 
 		}
 		if e.gone && cur != nil {
 			fail("%s: the owner's own target should have been deleted, it is still there", ctx)
+		}
+		if e.afterOwn != nil {
+			e.afterOwn(w, func(f string, a ...any) { fail(ctx+": "+f, a...) })
 		}
 		if !e.gone && !e.noController && (cur == nil || verifsim.ControllerUID(cur) != w.ownerUID) {
 			fail("%s: the owner's own target lost its controller reference: %q", ctx, verifsim.ControllerUID(cur))
